@@ -131,7 +131,10 @@ def verdict (i : Input) (answer : Option (Option Pos)) : Verdict :=
   | _, none => .fail "not_rejected"
   | _, some none => .fail "no_position"
   | k, some (some p) =>
-    if k.isParse then (if parseOk i p then .ok else .fail ("parse:" ++ parseWhy i p))
+    -- a `%n` command is diagnosed by the converter: on a channel track the general clause applies
+    -- (line of the command, column at or after its first character), in a subroutine the structural one
+    if k.isParse || (k == .missingPlatform && i.fault.tracks.all (· < channelLimit)) then
+      (if parseOk i p then .ok else .fail ("parse:" ++ parseWhy i p))
     else (if structOk i p then .ok else .fail ("struct:" ++ structWhy i p))
 
 /-! ### reading `file:line:col: message` -/
